@@ -41,6 +41,14 @@ func gen(tier string) []proto.Item {
 					s := base(v, dest)
 					s.Faults = []simnet.Fault{{Op: op, K: -1, Class: cl}}
 					items = append(items, proto.Item{Scn: s, Class: fmt.Sprintf("%s/dest-%d/%s/%s", v, dest, op, cl)})
+					if dest == 3 && op == "WriteTo" && cl == "fatal" {
+						// a send call that fails only after having waited 15ms, while the reply to an earlier probe - from the
+						// destination, 12ms after that probe - is read and processed: the failure is still the run's outcome
+						s3 := base(v, 1)
+						s3.Hops = map[int]proto.HopSpec{1: {DelayUs: 12000}, 2: {DelayUs: 12000}}
+						s3.Faults = []simnet.Fault{{Op: op, K: -1, Class: "fatal-slow"}}
+						items = append(items, proto.Item{Scn: s3, Class: fmt.Sprintf("%s/dest-1/slow-reply/%s/fatal-slow", v, op)})
+					}
 					if dest == 3 && (op == "Read" || op == "SetReadDeadline") {
 						// a hop that stays silent: its listening window is polled until it runs out, so "the k-th call" also
 						// covers the poll during which the window expires
@@ -99,7 +107,7 @@ func check(it *proto.Item, r *proto.Result) []proto.Issue {
 		}
 	} else {
 		switch cl {
-		case "fatal", "fatal-timeout":
+		case "fatal", "fatal-timeout", "fatal-slow":
 			if o.Err == nil {
 				out = append(out, proto.Issue{Key: "failure-swallowed", Detail: fmt.Sprintf("%s: the run returned success with hops %s", where, proto.HopsString(proto.Hops(o.Run)))})
 			} else {
